@@ -205,7 +205,7 @@ theorem mtdec_end_safe (cfg : Cfg) (blocks : List Block) (s : State) (hr : Reach
       exact (hE.join j k hpc).2 i (by omega) hi
 
 /-- **Memory bound.** Under every schedule coder->mem_in_use plus the memory of the queued outbufs — plus, between the
-    moment read_output_and_wait admits the next Block and the moment its outbuf is queued, what that Block will take
+    moment read_output_and_wait lets the next Block in and the moment its outbuf is queued, what that Block will take
     (`pendMem`) — never exceeds memlimit_threading. Hence the subtraction `memlimit_threading - mem_in_use - outq.mem_in_use`
     in the can-start test never wraps (second conjunct), which is what makes the model's natural-number arithmetic agree with
     the C code's uint64_t arithmetic. (That mem_in_use is exactly the sum over the busy and failed workers is not proved; the
